@@ -1,5 +1,7 @@
 """C18 - Query strings and urlencoded forms decode to exactly what was sent."""
 import itertools
+import random
+import re
 import urllib.parse
 from io import BytesIO
 
@@ -71,6 +73,38 @@ def encode_pairs(pairs, rng):
     if k == 2:
         return lower_hex(urllib.parse.urlencode(pairs), rng), 'lower-hex'
     return urllib.parse.urlencode(pairs, safe='/:@!$\'()*,;?'), 'extra-safe'
+
+
+# ----------------------------------------------------------------------------------------
+# class: ONE query string / body assembled by SEVERAL encoders (a <form> field plus a parameter appended by script with
+# encodeURIComponent, a proxy that re-escapes part of the string, hand-written links): every key and every value is
+# spelled by an encoder chosen on its own, so the same key text can stand in the string in different spellings
+# ('+' / '%20', hex case, over-escaped unreserved characters).  All spellings decode to the same text, so the property
+# ("parsing yields the same pairs ... repeated keys as lists in submission order") binds on them alike.
+COMP_FLAVOURS = ['plus', 'pct', 'lower', 'over', 'overlow', 'alt', 'safe']
+
+
+def enc_component(text, flav):
+    if flav == 'plus':
+        return urllib.parse.quote_plus(text)
+    if flav == 'pct':
+        return urllib.parse.quote(text, safe='')
+    if flav == 'lower':
+        return re.sub(r'%[0-9A-F]{2}', lambda m: m.group(0).lower(), urllib.parse.quote_plus(text))
+    if flav == 'safe':
+        return urllib.parse.quote_plus(text, safe='/:@!$\'()*,;?')
+    esc = ['%%%02X' % b for b in text.encode('utf8')]
+    if flav == 'over':
+        return ''.join(esc)
+    if flav == 'overlow':
+        return ''.join(esc).lower()
+    # 'alt': every other character escaped although it need not be
+    return ''.join(''.join('%%%02X' % b for b in c.encode('utf8')) if i % 2 == 0 else urllib.parse.quote_plus(c)
+                   for i, c in enumerate(text))
+
+
+def encode_mixed(pairs, kfl, vfl):
+    return '&'.join(enc_component(k, kf) + '=' + enc_component(v, vf) for (k, v), kf, vf in zip(pairs, kfl, vfl))
 
 
 def gen_raw(rng):
@@ -500,9 +534,13 @@ class C18(Check):
     def _oracle_pairs(self, pairs, flavour='quote_plus'):
         """returns None or (key, what)"""
         helpers, Request = self._mods()
-        enc = {'quote_plus': lambda p: urllib.parse.urlencode(p),
-               'quote': lambda p: urllib.parse.urlencode(p, quote_via=urllib.parse.quote)}[flavour]
-        qs = enc(pairs)
+        mixed = isinstance(flavour, (list, tuple)) and flavour[0] == 'mixed'
+        if mixed:
+            qs = encode_mixed(pairs, flavour[1], flavour[2])
+        else:
+            enc = {'quote_plus': lambda p: urllib.parse.urlencode(p),
+                   'quote': lambda p: urllib.parse.urlencode(p, quote_via=urllib.parse.quote)}[flavour]
+            qs = enc(pairs)
         bad = self._oracle_total(qs)
         if bad:
             return bad
@@ -510,12 +548,19 @@ class C18(Check):
         if got != list(pairs):
             return self._classify(pairs, got, 'pairs'), f'parse_qsl({qs!r}) = {got!r}, sent {list(pairs)!r}'
         exp = expected_dict(pairs)
+        if mixed:       # the setitem mode of the scanner on its own, and the three Request views below
+            d = {}
+            helpers.parse_qsl(qs, setitem=d.__setitem__)
+            if d != exp:
+                return (self._classify(pairs, d, 'setitem') + ':mixed-spellings',
+                        f'parse_qsl({qs!r}, setitem=) built {d!r}, expected {exp!r}')
         for name, d in (('query', self._request(Request, qs, b'').query),
                         ('forms', self._request(Request, '', qs.encode('ascii')).forms),
                         ('params', self._request(Request, qs, b'').params),
                         ('params', self._request(Request, '', qs.encode('ascii')).params)):
             if dict(d) != exp:
-                return self._classify(pairs, d, name), f'Request.{name} for {qs!r} = {dict(d)!r}, expected {exp!r}'
+                return (self._classify(pairs, d, name) + (':mixed-spellings' if mixed else ''),
+                        f'Request.{name} for {qs!r} = {dict(d)!r}, expected {exp!r}')
         return None
 
     @staticmethod
@@ -634,6 +679,21 @@ class C18(Check):
         for p in named:
             cases.append(('pairs', p, 'quote_plus'))
             cases.append(('pairs', p, 'quote'))
+        # one string, several encoders: every named case under every PAIR of component encoders (keys of the odd pairs
+        # spelled by the second one), then generated pairs with an encoder drawn per key and per value
+        mrng = random.Random(rng.random())
+        spell = [[('full name', 'Ann'), ('full name', 'Bob'), ('full name', 'Cy')], [('caf\xe9', '1'), ('caf\xe9', '2')],
+                 [('tag', 'a'), ('x', 'y'), ('tag', 'b'), ('tag', 'c')], [('a b', '1'), ('a+b', '2'), ('a b', '3'), ('a+b', '4')],
+                 [('k~._-', 'v'), ('k~._-', 'w')]]
+        for p in named + spell:
+            for f1 in COMP_FLAVOURS:
+                for f2 in COMP_FLAVOURS:
+                    if f1 != f2:
+                        cases.append(('pairs', p, ['mixed', [(f1, f2)[i % 2] for i in range(len(p))], [f2] * len(p)]))
+        for _ in range(n // 2):
+            pairs = [(k, v) for k, v in gen_pairs(mrng) if k]
+            cases.append(('pairs', pairs, ['mixed', [mrng.choice(COMP_FLAVOURS) for _ in pairs],
+                                           [mrng.choice(COMP_FLAVOURS) for _ in pairs]]))
         for alpha in EXH_ALPHABETS[:1]:
             for L in range(0, 5):
                 for t in itertools.product(alpha, repeat=L):
@@ -741,8 +801,13 @@ class C18(Check):
                 r = self._oracle_pairs(pairs, i.get('flavour') or 'quote_plus')
             except core.Hang:
                 r = ('hang', 'does not terminate')
-            out.update(query_string=urllib.parse.urlencode(pairs), oracle=r)
-            qs = i.get('qs') or urllib.parse.urlencode(pairs)
+            fl = i.get('flavour')
+            if isinstance(fl, (list, tuple)) and fl and fl[0] == 'mixed':
+                qs = encode_mixed(pairs, fl[1], fl[2])
+                out.update(query_string=qs, expected=expected_dict(pairs), oracle=r)
+            else:
+                out.update(query_string=urllib.parse.urlencode(pairs), oracle=r)
+                qs = i.get('qs') or urllib.parse.urlencode(pairs)
         else:
             qs = i['value']
             out.update(oracle=self._oracle_total(qs))
